@@ -1,7 +1,7 @@
 (* Proofs/ProgSim.v — C03: whole-program simulation for a fragment of BASIC.
 
    The fragment: scalar assignment, PRINT (expressions, `;`, `,`), GOTO,
-   IF c THEN <line>, END — expressions from the fragment of C02 (literals,
+   GOSUB, RETURN, IF c THEN <line>, END — expressions from the fragment of C02 (literals,
    variables, unary and binary operators, ABS, INT, parentheses).  It is a
    language of counter machines: programs in it loop, branch and need not
    terminate.
